@@ -50,7 +50,7 @@ def opname(cmd):
 
 
 def run(v, tier, seed):
-    vlib.make("plain", "refl")
+    rc.build_refl()
     W = lambda n: vlib.scratch("C13", n)
     insts = dict(QUICK)
     if tier == "thorough": insts.update(THOROUGH)
@@ -157,6 +157,6 @@ def run(v, tier, seed):
            "exhaustive": True, "model_runs": notes, "samples": samples[:4]}
     assumptions = ["C13 precondition (DESIGN.md): index updates go to every path-subscribed session regardless of filters, the snapshot is part of the FILTERED data result: a client tracks a node's index from the moment it is path-subscribed AND has the snapshot or the index was empty; untracked nodes are not judged",
                    "quiet removals change an index silently (documented): the node is untracked until the next snapshot",
-                   "replay of IndexImpl behaviours: DataNode::_orderedCounter of a newly created indexed parent is reset to 0 by the harness (a recycled DataNode keeps the counter of its previous life; the specification starts every node at 0)",
+                   "IndexImpl starts the generated-name counter of every new node at 0, as DataNode::Init does since the repair of F40; the harness touches no private state",
                    "single-threaded pumping of the server to quiescence after every command"]
     return "model_checking", cov, assumptions
